@@ -150,6 +150,40 @@ def template(sp, fn, e, node, is_parent, depth=0):
                 else:
                     out.append(("?", "%s re-cased with .%s()" % ({"P": "the inherited prefix", "k": "the key", "K": "the key"}.get(p[0], p[0]), m)))
             return out
+        if m == "join" and len(e.args) == 1 and isinstance(e.args[0], ast.Name):
+            # a list built step by step: `parts = [prefix] if prefix else []; parts.append(key.upper()); "_".join(parts)`
+            lst = e.args[0]
+            srcs = sp.sources(lst, node)
+            if len(srcs) == 1 and srcs[0][0] == "expr" and isinstance(srcs[0][1], (ast.List, ast.Tuple)):
+                disp = srcs[0][1]
+                elems = [(x, sp.where.get(id(disp))) for x in disp.elts]
+                muts = []
+                for mnode in sp.g.nodes:
+                    if mnode in sp.normal and mnode.kind == "call" and isinstance(mnode.ast.func, ast.Attribute) \
+                            and isinstance(mnode.ast.func.value, ast.Name) and mnode.ast.func.value.id == lst.id \
+                            and any(k == "expr" and p_ is disp for k, p_ in sp.sources(mnode.ast.func.value, mnode)):
+                        muts.append(mnode)
+                muts.sort(key=lambda n_: (n_.lineno, getattr(n_.ast, "col_offset", 0)))
+                okm = True
+                for mnode in muts:
+                    meth = mnode.ast.func.attr
+                    if meth == "append" and len(mnode.ast.args) == 1:
+                        elems.append((mnode.ast.args[0], mnode))
+                    elif meth == "insert" and len(mnode.ast.args) == 2 and isinstance(mnode.ast.args[0], ast.Constant) and mnode.ast.args[0].value == 0:
+                        elems.insert(0, (mnode.ast.args[1], mnode))
+                    elif meth == "extend" and len(mnode.ast.args) == 1 and isinstance(mnode.ast.args[0], (ast.List, ast.Tuple)):
+                        elems += [(x, mnode) for x in mnode.ast.args[0].elts]
+                    else:
+                        okm = False
+                if okm:
+                    sep = _merge(rec(e.func.value))
+                    out = []
+                    for i, (x, at_) in enumerate(elems):
+                        if i:
+                            out += sep
+                        out += template(sp, fn, x, at_ if at_ is not None else node, is_parent, depth + 1)
+                    return out
+            return [("?", ast.unparse(e)[:40])]
         if m == "join" and len(e.args) == 1 and isinstance(e.args[0], (ast.Tuple, ast.List)):
             sep = _merge(rec(e.func.value))
             out = []
